@@ -109,6 +109,7 @@ func c19KindOf(e schema.FlowElementInterface) string {
 type c19Act struct {
 	kind   string
 	preset string // "" = let the builder generate
+	blank  bool   // no preset id, but the id field is SET to the empty string (the builder treats that as no id too)
 }
 
 type c19Cfg struct{ sx, sy, cg, rg, pg float64 }
@@ -354,6 +355,10 @@ func c19Case(out *rec.Out, sc c19Script, stats map[string]int) {
 				if a.preset != "" {
 					id := a.preset
 					act.SetId(&id)
+				} else if a.blank {
+					id := ""
+					act.SetId(&id)
+					stats["blank_ids"]++
 				}
 				out.Line("s act %s %s", a.kind, c19Tok(a.preset))
 				pb.AddActivity(act)
@@ -559,13 +564,7 @@ func c19(out *rec.Out, rng *rec.Rng, tier string, stats map[string]int) {
 				}
 				presetN = 0
 				acts := make([]c19Act, L)
-				for i := range acts {
-					acts[i].kind = k
-					if pre {
-						acts[i].preset = preset()
-					}
-				}
-				run := "none"
+XX
 				if ki < c19Tasks && (L <= 3 || L == 12 || tier == "thorough") {
 					run = runMode(cnt)
 				}
@@ -591,6 +590,8 @@ func c19(out *rec.Out, rng *rec.Rng, tier string, stats map[string]int) {
 				acts[i].kind = c19Kinds[d/2]
 				if d%2 == 1 {
 					acts[i].preset = preset()
+				} else {
+					acts[i].blank = (code+i)%2 == 0
 				}
 				if d/2 >= c19Tasks {
 					eng = false
